@@ -1,0 +1,21 @@
+//go:build verif
+
+package tape
+
+// Machine-checked contracts (comment-only; compiled to nothing). Checked by /verif/bin/stfsvc.
+
+//@ func OpenTapeWriteOnly
+//@   property C05
+//@   at call Truncate#1 assert [truncate-only-on-overwrite] overwrite
+//@   at call SeekToRecordOnTape#1 assert [rewind-only-on-overwrite] overwrite
+//@   at call OpenFile#1 assert [probe-open-only-on-overwrite] overwrite
+//@   at call OpenFile#2 assert [probe-open-only-on-overwrite-tape] overwrite
+//@   at call OpenFile#3 assert [append-flag] arg_flag & 1024 == 1024 && arg_flag & 512 == 0
+//@   at call OpenFile#4 assert [append-flag-tape] arg_flag & 1024 == 1024 && arg_flag & 512 == 0
+//@   at call GoToEndOfTape#1 assert [tape-to-end-unless-overwrite] !overwrite
+
+//@ func (*TapeManager).GetWriter
+//@   property C05
+//@   modifies *, mutexHeld[addr(m.physicalLock)]
+//@   at call OpenTapeWriteOnly#1 assert [overwrite-once] arg_overwrite == (m.overwrite && !old(m.overwrote))
+//@   ensures [marks-overwrote] m.overwrote
